@@ -16,6 +16,12 @@ CLAIMS = {
  "C17": dict(tech="TLA+ model of the global window (GlobalWin.tla: rows of a group since it last fired, predicate menu, fire-and-purge) model-checked by TLC (fires exactly when the predicate first holds, conservation, no firing while false); every row sequence of the model at small bounds replayed in lock-step on the real engine; traces validated by TLC against TraceBatch (global carrier: predicate AST evaluated with lib/Agg on the rows since the last firing)",
              text="TLC enumerates every row sequence (2 groups, values incl. NULL) up to the stated length for 8 predicates (comparisons of count/sum/avg/min/max, AND, OR, OR-of-AND precedence), 3 SELECT shapes; each runs on the real engine and TLC checks: a result exactly at the rows where the predicate holds over the rows since the group's previous result, carrying the aggregates over precisely those rows and the group column, nothing at quiescence missing. Bounded.",
              ref="DESIGN.md §4 C17", note=SEQ_NOTE + " STATETTL unset; numeric literals; small integer / NULL / missing values."),
+ "C05": dict(tech="TLA+ model of the non-aggregate pipeline (Direct.tla: bounded input FIFO, one processor, inline synchronous sink, non-blocking result channel with drop-oldest) model-checked by TLC for order/at-most-once/accounting; queries generated from expression ASTs executed on the real engine through Emit (sink + channel), EmitSync, and unthrottled bursts (also across input-buffer expansion); traces validated by TLC against TraceDirect, whose expected result is lib/Expr applied to (row, query) alone",
+             text="TLC validates every recorded execution against a contract whose FORM is statelessness: the expected result of a row is Project/Filter of that row under the query ASTs (evaluated by the TLA+ interpreter lib/Expr), nothing else; results must be exactly the selected columns, EmitSync must return what the sink received, and in bursts sink and channel must see the results in emission order, each once. The pipeline model is checked exhaustively at small sizes. Seeded, not exhaustive, on the real engine.",
+             ref="DESIGN.md §4 C05", note=SEQ_NOTE + " Predicates/expressions are drawn from the envelope in which the engine follows SQL semantics; deviations outside it are pinned findings (C06)."),
+ "C06": dict(tech="TLA+ reference interpreter for scalar SQL expressions (lib/Expr.tla: exact rationals, NULL propagation, two-valued logic, CASE, functions) whose laws are model-checked by TLC (ExprLaws.tla); seeded expression ASTs in SELECT / WHERE / CASE positions executed on the real engine (one process: shared compiled-program and preprocess caches; Emit and EmitSync) and every recorded value/decision validated by TLC against the interpreter (TraceDirect); recorded deviations are pinned by their exact input",
+             text="The oracle is a definition (TLA+ interpreter), not a second run of the code. Seven profiles cover the envelope in which the engine follows SQL semantics (arithmetic with NULL/missing/nested paths, top-level CASE, string functions, comparisons, full WHERE predicates incl. flat AND/OR chains that take the fast path, WHERE over NULL data); eleven genuine deviations outside it are recorded as known findings, each pinned by input and re-checked on every run. Functions not definable over small rationals/strings are not decided.",
+             ref="DESIGN.md §4 C06", note=SEQ_NOTE + " Division only by non-zero literals; small integers and halves; function values decided only for abs/floor/ceil/upper/lower/concat/coalesce."),
  "C09": dict(tech="TLA+ model of CountingWindow(N) with the key encoder (Counting.tla + lib/KeyEnc.tla) model-checked by TLC (contract per key TUPLE, encoder injectivity); every key sequence of the model at small bounds replayed in lock-step on the real engine; traces validated by TLC against the batch monitor TraceBatch",
              text="TLC enumerates all key sequences of the model (plain keys, separator-like keys, NULL/missing/empty, two-column keys) up to the stated length; each is executed on the real engine and the recorded trace is validated by TLC: i-th delivery of a key = that key's rows (i-1)N+1..iN, nothing extra, nothing missing at quiescence. Bounded; goroutine schedules beyond lock-step are not explored (one goroutine owns the state, Add blocks on a channel).",
              ref="DESIGN.md §4 C09", note=SEQ_NOTE + " STATETTL unset."),
